@@ -339,6 +339,12 @@ func TestVerifC12(t *testing.T) {
 		zzvReq{desc: "two values", method: "POST", path: "/upload/x", body: append(append([]byte{}, valid...), valid...), class: "invalid"},
 		zzvReq{desc: "trailing report with hostile week", method: "POST", path: "/upload/x", body: append(append([]byte{}, valid...), []byte(`{"Week":"../../x"`)...), class: "invalid"},
 		zzvReq{desc: "trailing newline", method: "POST", path: "/upload/x", body: append(append([]byte{}, valid...), '\n'), class: "valid"},
+		zzvReq{desc: "all four JSON white-space characters trailing", method: "POST", path: "/upload/x", body: append(append([]byte{}, valid...), []byte(" \t\r\n")...), class: "valid"},
+		zzvReq{desc: "trailing vertical tab (white space for Go, not for JSON)", method: "POST", path: "/upload/x", body: append(append([]byte{}, valid...), '\v'), class: "invalid"},
+		zzvReq{desc: "trailing form feed", method: "POST", path: "/upload/x", body: append(append([]byte{}, valid...), '\f'), class: "invalid"},
+		zzvReq{desc: "trailing no-break space", method: "POST", path: "/upload/x", body: append(append([]byte{}, valid...), []byte("\u00a0")...), class: "invalid"},
+		zzvReq{desc: "trailing NEL", method: "POST", path: "/upload/x", body: append(append([]byte{}, valid...), []byte("\u0085")...), class: "invalid"},
+		zzvReq{desc: "trailing line separator after blanks", method: "POST", path: "/upload/x", body: append(append([]byte{}, valid...), []byte("  \u2028")...), class: "invalid"},
 		zzvReq{desc: "trailing white space within the limit", method: "POST", path: "/upload/x", body: append(append([]byte{}, valid...), bytes.Repeat([]byte(" \n"), 1000)...), class: "valid"},
 		zzvReq{desc: "trailing white space beyond the limit", method: "POST", path: "/upload/x", body: append(append([]byte{}, valid...), bytes.Repeat([]byte(" "), 4*zzvLimit)...), class: "invalid"},
 		zzvReq{desc: "trailing garbage beyond the limit", method: "POST", path: "/upload/x", body: append(append([]byte{}, valid...), bytes.Repeat([]byte("x"), 4*zzvLimit)...), class: "invalid"},
